@@ -103,13 +103,27 @@ def run(tier, seed):
                          json.dumps(sa)[:200], json.dumps(sb)[:200]),
                       {'program': a.name.split('|')[0], 'source': a.src, 'args_a': a.args, 'args_b': b.args, 'history': r['hist'], 'report': r,
                        'binary_a': sa, 'binary_b': sb})
+    # C stage: the optimisation flags that act in code generation (range collapsing) are only visible in the emitted C:
+    # bind the -O0 and the optimised binaries of some pairs to their own machines (every state x every byte); together
+    # with the machine-level equivalence above this makes the binaries equivalent
+    from props import c06
+    sel = []
+    for a, b in pairs:
+        if any(x in ('-O2', '-O3') or 'collapse' in x for x in b.args) and not a.name.startswith(('example/', 'test/')):
+            sel.append(b)
+            if len(sel) % 4 == 1:
+                sel.append(a)
+        if len(sel) >= (14 if quick else 120):
+            break
+    cst = c06.c_stage(chk, sel, rng, nctx=2, label='optimised program') if sel else {'states': 0, 'transitions': 0, 'sweeps': 0, 'accepted': 0, 'binaries': 0}
     chk.coverage = {
-        'states': st['states'], 'transitions': st['transitions'], 'traces_validated_against_impl': len(pairs),
+        'states': st['states'] + cst['states'], 'transitions': st['transitions'] + cst['transitions'], 'traces_validated_against_impl': len(pairs) + cst['accepted'],
+        'binaries_swept': cst['binaries'], 'single_step_sweeps': cst['sweeps'],
         'samples': [{'program': c['a'].name, 'args_a': c['a'].args, 'args_b': c['b'].args, 'symbols': c['syms'], 'max_input_length': c['maxlen']} for c in cases[:3]],
         'machine_pairs': len(pairs), 'variants': vs, 'report_kinds': dict(kinds), 'verdict_differences': verdict_diff, 'exhaustive': False,
         'rule': 'product search of (-O0 machine, optimised machine) over one representative per joint symbol cell up to the length bound; event streams compared with one-symbol slack',
     }
-    chk.assumptions = ['the $last value observed by a hook is not compared (the property allows it to shift by one position)', 'the emitted C executes the exported machine (C06)']
+    chk.assumptions = ['the $last value observed by a hook is not compared (the property allows it to shift by one position)', 'the emitted C executes the exported machine: swept here for a subset of the optimised binaries, decided in general by C06']
     return chk.finish()
 
 
